@@ -168,6 +168,22 @@ Theorem C07_prediction_only_on_complete_rows : forall (A : Type) (f : Z -> A -> 
 Proof. exact predicted_is_complete. Qed.
 Print Assumptions C07_prediction_only_on_complete_rows.
 
+(* ---- the public entry point: the data class of the object handed to predict() is not an input of the pipeline ---- *)
+(* DailyReportingData or DailyBaselineData (billing: BillingReportingData or BillingBaselineData): the same frame gives
+   the same rows, so the statement holds for a baseline-class object exactly when it holds for a reporting-class one *)
+Theorem C07_output_depends_on_frame_only : forall (A : Type) (f : Z -> A -> A) pol dc1 dc2 has_obs rows,
+  predict_public f pol dc1 has_obs rows = predict_public f pol dc2 has_obs rows.
+Proof. reflexivity. Qed.
+Print Assumptions C07_output_depends_on_frame_only.
+
+Theorem C07_statement_q_every_data_class : forall pol, mode_satisfies_statement pol = true ->
+  forall dc (f : Z -> Q -> Q) rows, usage_missing_or_finite rows ->
+    let out := predict_public f pol dc true rows in
+    both_or_neither out /\
+    nansum (map (@o_pred Q) out) - nansum (map (@o_obs Q) out) == nansum (map savings out).
+Proof. intros pol H dc f rows Hr. apply (proj2 (C07_mode_verdict pol) H f rows Hr). Qed.
+Print Assumptions C07_statement_q_every_data_class.
+
 (* ---- row accounting: concat + sort returns one row per input label, in index order ---- *)
 Theorem C07_one_row_per_label : forall (A : Type) (f : Z -> A -> A) pol has_obs rows,
   NoDup (map (@ts A) rows) ->
